@@ -86,9 +86,16 @@ theorem attr_spec (A : Api S T) (o : Obj S T) (key : String) :
 /-- the table after any history is the one assigned by the LAST table-assigning operation that succeeded
 (fit / recompute_edges / load); edits and attribute reads keep it. -/
 theorem table_kept (A : Api S T) (o : Obj S T) (op : Op S T)
-    (h : match op with | .edit .. => True | .rebind .. => True | .editbk .. => True | .attr .. => True | _ => False) :
+    (h : match op with | .edit .. => True | .rebind .. => True | .editbk .. => True | .attr .. => True | .plot => True | _ => False) :
     (step A o op).1.df = o.df ∧ (step A o op).1.sig = o.sig := by
   cases op <;> simp_all [step]
+
+/-- plotting changes nothing: not the settings (the thresholds it is handed are the object's own dictionary), not the signal, not the table. -/
+theorem plot_spec (A : Api S T) (o : Obj S T) :
+    (step A o .plot).1 = o ∧ ((step A o .plot).2 = .done ↔ (o.df.isSome = true ∧ o.sig.isSome = true)) := by
+  refine ⟨rfl, ?_⟩
+  simp only [step]
+  cases o.df <;> cases o.sig <;> simp
 
 theorem load_spec (A : Api S T) (o : Obj S T) (t : T) (x : S) :
     step A o (.load t x) = ({ o with sig := some x, df := some t }, .done) := rfl
